@@ -114,13 +114,23 @@ fn convert(case: &str) -> Option<(u32, Vec<Bank>, String)> {
     Some((run, banks, line))
 }
 
-fn reemit(s: &mut Sink, seen: &mut std::collections::HashSet<String>, origin: &str, cases: Vec<(String, String, String)>, keep_every: usize) {
-    let mut k = 0usize;
+/// keep every `keep_small`-th case of at most BIG characters and every `keep_big`-th larger one (the end-to-end
+/// model decodes every byte itself, CRCs included: about 35 microseconds per byte)
+const BIG: usize = 40_000;
+fn reemit(s: &mut Sink, seen: &mut std::collections::HashSet<String>, origin: &str, cases: Vec<(String, String, String)>, keep_small: usize, keep_big: usize) {
+    let (mut ks, mut kb) = (0usize, 0usize);
     for (case, obs, meta) in cases {
         let Some((run, banks, line)) = convert(&case) else { continue };
-        k += 1;
-        if keep_every > 1 && k % keep_every != 0 {
-            continue;
+        if line.len() > BIG {
+            kb += 1;
+            if kb % keep_big != 0 {
+                continue;
+            }
+        } else {
+            ks += 1;
+            if ks % keep_small != 0 {
+                continue;
+            }
         }
         if !seen.insert(line.clone()) {
             continue;
@@ -158,8 +168,9 @@ pub fn run(tier: &str, seed: u64, s: &mut Sink) {
     // 2. the bank lists of the C10, C09 and C11 generators, as raw (name, bytes) lists
     let mut seen = std::collections::HashSet::new();
     let t = tier.to_string();
-    reemit(s, &mut seen, "c10", capture(|x| c10::run(&t, seed, x)), 1);
-    // quick tier: every C10 case, every 6th C09 case (large simulated events), every 4th C11 case
-    reemit(s, &mut seen, "c09", capture(|x| c09::run(&t, seed, x)), if thorough { 1 } else { 6 });
-    reemit(s, &mut seen, "c11", capture(|x| c11::run(&t, seed, x)), if thorough { 1 } else { 4 });
+    // every C10 case; of the C09 / C11 cases (large simulated events) a sample
+    reemit(s, &mut seen, "c10", capture(|x| c10::run(&t, seed, x)), 1, 1);
+    let (s9, b9, s11, b11) = if thorough { (1, 10, 1, 4) } else { (4, 8, 3, 6) };
+    reemit(s, &mut seen, "c09", capture(|x| c09::run(&t, seed, x)), s9, b9);
+    reemit(s, &mut seen, "c11", capture(|x| c11::run(&t, seed, x)), s11, b11);
 }
